@@ -42,6 +42,10 @@ type Params struct {
 	// BIP34 hash is configured, so the "BIP34 makes BIP30 redundant" shortcut
 	// never applies).
 	BIP30Always bool
+	// BIP94 (testnet4): the first block of a retarget period (height % Window
+	// == 0) must not be more than 600 s earlier than its parent.
+	BIP94  bool
+	Window int32
 }
 
 const (
@@ -464,6 +468,12 @@ func scriptNumPush(n int64) []byte {
 	return append([]byte{byte(len(b))}, b...)
 }
 
+// HeightPrefixOK is the BIP34 rule: the coinbase script starts with the
+// minimally serialized height ("CScript() << height").
+func HeightPrefixOK(script []byte, height int32) bool {
+	return bytes.HasPrefix(script, scriptNumPush(int64(height)))
+}
+
 var witnessMagic = []byte{0x6a, 0x24, 0xaa, 0x21, 0xa9, 0xed}
 
 func commitmentIndex(cb *wire.MsgTx) int {
@@ -527,6 +537,9 @@ func Check(p *Params, s *State, b *wire.MsgBlock, now int64) (rep Report) {
 	}
 	if btime <= prevMTP {
 		v["time-mtp"] = true
+	}
+	if p.BIP94 && height%p.Window == 0 && btime < s.Headers[s.Height()].Timestamp.Unix()-600 {
+		v["timewarp"] = true
 	}
 	if (b.Header.Version < 2 && height >= p.BIP34Height) ||
 		(b.Header.Version < 3 && height >= p.BIP66Height) ||
@@ -633,8 +646,7 @@ func Check(p *Params, s *State, b *wire.MsgBlock, now int64) (rep Report) {
 		return
 	}
 	if height >= p.BIP34Height {
-		want := scriptNumPush(int64(height))
-		if !bytes.HasPrefix(cb.TxIn[0].SignatureScript, want) {
+		if !HeightPrefixOK(cb.TxIn[0].SignatureScript, height) {
 			v["bip34"] = true
 		}
 	}
